@@ -149,11 +149,25 @@ static void run_stack(const char* subj, Rng& g, long nops, std::size_t block, Ma
     int                                 cur = 0, other = -1;
     std::size_t                         base_live = 0;
     long                                assign_in = 0, n_assign = 0;
+    long long                           net[3] = {0, 0, 0}; // C15: bytes allocated minus deallocated through the traits, per stack object
+    auto                                check_net = [&](const char* when)
+    {
+#if FOONATHAN_MEMORY_DEBUG_LEAK_CHECK
+        if ((long long)st[cur]->allocated_ != net[cur])
+            O->fail(fmt("C15 memory_stack: leak counter is %lld %s, but %lld bytes net went through allocator_traits",
+                        (long long)st[cur]->allocated_, when, net[cur]));
+#else
+        (void)when;
+#endif
+    };
     auto                                do_assign = [&]
     { // *primary = std::move(*older): the primary's blocks go back upstream, it takes over the older stack completely
         O->verify_all("before move assignment");
         O->drop_from(base_live, "move assignment (target's allocations are released)");
         *st[cur] = std::move(*st[other]);
+        net[cur] = net[other];
+        net[other] = 0;
+        check_net("after move assignment");
         emit(fmt("%s move_assign", subj), "done", stack_state(*st[cur]));
         long lk = Handlers::leak();
         st[other]->~Stack();
@@ -236,7 +250,9 @@ static void run_stack(const char* subj, Rng& g, long nops, std::size_t block, Ma
             {
                 O->on_alloc(next_id++, p, arr ? count * size : size, al, "stack.traits_allocate");
                 res = fmt("ok %zu", R->off(p));
+                net[cur] += (long long)(arr ? count * size : size);
             }
+            check_net(res.rfind("ok", 0) == 0 ? "after a successful traits allocation" : "after a FAILED traits allocation");
             if (arr)
                 emit(fmt("%s alloc_array %zu %zu %zu", subj, count, size, al), res, stack_state(s));
             else
@@ -250,6 +266,8 @@ static void run_stack(const char* subj, Rng& g, long nops, std::size_t block, Ma
                 traits::deallocate_array(s, nullptr, count, size, 1);
             else
                 traits::deallocate_node(s, nullptr, size, 1);
+            net[cur] -= (long long)(arr ? count * size : size);
+            check_net("after a traits deallocation");
             if (arr)
                 emit(fmt("%s dealloc_array %zu %zu", subj, count, size), "done", stack_state(s));
             else
@@ -399,6 +417,7 @@ static void run_stack(const char* subj, Rng& g, long nops, std::size_t block, Ma
             emit(fmt("%s switch", subj), "done", stack_state(*st[to]));
             other = cur;
             cur = to;
+            net[cur] = 0;
             markers.clear();
             mrec.clear();
             base_live = O->live.size();
@@ -411,6 +430,8 @@ static void run_stack(const char* subj, Rng& g, long nops, std::size_t block, Ma
                 to = (to + 1) % 3;
             void* mem = place(to);
             st[to] = ::new (mem) Stack(std::move(s));
+            net[to] = net[cur];
+            net[cur] = 0;
             emit(fmt("%s move", subj), "done", stack_state(*st[to]));
             long lk = Handlers::leak();
             st[cur]->~Stack();
